@@ -28,7 +28,8 @@ class AppRaise(Exception):
 
 
 class RecSubscriber(Subscriber):
-    def __init__(self, w, ep, name, raise_in=None, request_on_subscribe=None, cancel_on_subscribe=False):
+    def __init__(self, w, ep, name, raise_in=None, request_on_subscribe=None, cancel_on_subscribe=False, cancel_in_on_next=None,
+                 before_cancel=None):
         self.w = w
         self.ep = ep
         self.name = name
@@ -38,6 +39,8 @@ class RecSubscriber(Subscriber):
         self.request_on_subscribe = request_on_subscribe
         self.after_cancel = None  # index into signals when the app cancelled
         self.cancel_on_subscribe = cancel_on_subscribe
+        self.cancel_in_on_next = cancel_in_on_next  # cancel from inside on_next of the k-th element ("take(k)")
+        self.before_cancel = before_cancel
 
     def _rec(self, sig):
         self.signals.append(sig)
@@ -59,6 +62,12 @@ class RecSubscriber(Subscriber):
 
     def on_next(self, value, is_complete=False):
         self._rec(('N', pl(value), bool(is_complete)))
+        if self.cancel_in_on_next is not None and len(self.elements()) == self.cancel_in_on_next and self.after_cancel is None:
+            self.w.api(self.ep, self.name, 'cancel-in-on_next', ())
+            if self.before_cancel is not None:
+                self.before_cancel(self, bool(is_complete))
+            self.subscription.cancel()
+            self.mark_cancel()
 
     def on_complete(self):
         self._rec(('C',))
